@@ -332,7 +332,9 @@ pub fn drive_c16(a: &Args, out: &mut Out) {
         }
     }
     for i in 0..n {
-        let (x, y) = if i % 4 == 3 {
+        let (x, y) = if i % 40 == 39 {
+            textgen::runny_line_pair(&mut rng)
+        } else if i % 4 == 3 {
             let k = rng.below(6);
             let x = textgen::random_lines(&mut rng, k, 8);
             let e = rng.range(0, 3);
@@ -491,6 +493,11 @@ pub fn line_text_pairs(rng: &mut Rng, thorough: bool) -> Vec<(Vec<u8>, Vec<u8>)>
             }
         }
         v.push((a, b));
+    }
+    // more than 100 lines made of runs of repeated lines (blank lines, closing braces), few edits
+    for _ in 0..(if thorough { 300 } else { 30 }) {
+        let (a, b) = textgen::runny_line_pair(rng);
+        v.push((a.into_bytes(), b.into_bytes()));
     }
     // scale: three-, four- and five-digit line numbers, hunks far apart, and long lines
     let sizes: Vec<usize> = if thorough { vec![120, 130, 1100, 1200, 10100, 10200] } else { vec![120, 1100, 10100] };
